@@ -25,11 +25,16 @@ PID = "C03"
 MODULE = "m03"
 NY = 3                     # size of the user type "y"
 TIDS = ["final", "mid"]
+# -g as the test-suite does, plus: local reals start as signalling NaN and using one traps, so that
+# "the generated code reads a local variable that has no value" is an observable abort instead of a
+# silent use of whatever the stack holds
+FFLAGS = ("-g", "-finit-real=snan", "-ffpe-trap=invalid")
 HEADER = ("From Coq Require Import List ZArith String Bool.\nImport ListNotations.\n"
           "From Dagrt Require Import GenLang GenC03 Lang LangCheck Builder Sched FortranTarget FortranCheck.\n"
           "Open Scope string_scope.\nOpen Scope Z_scope.\n"
           "Definition chk := chk3 lang_del_guarded lang_lhs_sub_reads lang_loop_bound_reads\n"
-          "  c03_cond_honoured c03_ite_flag_first c03_ubound_m1 c03_switch_exits c03_next_first c03_ne_fortran\n"
+          "  c03_cond_honoured c03_ite_flag_first c03_ubound_m1 c03_switch_exits c03_next_first c03_guard_outside\n"
+          "  c03_ne_fortran\n"
           "  (is_state_of state_exact state_prefixes) (is_state_of interp_keep_exact interp_keep_prefixes)\n"
           "  exec_state_token.\n")
 
@@ -126,7 +131,9 @@ def real_safe(e, loopvars):
     if k == "var":
         return e[1] not in loopvars
     if k == "nary" and e[1] in ("sum", "prod"):
-        return any(real_safe(c, loopvars) for c in e[2])
+        # pymbolic.flatten (Assign.__init__) drops the neutral element: i + 0 is i again
+        neutral = ["int", 0] if e[1] == "sum" else ["int", 1]
+        return any(real_safe(c, loopvars) for c in e[2] if c != neutral)
     if k == "if":
         return real_safe(e[2], loopvars) or real_safe(e[3], loopvars)
     if k == "pow":
@@ -243,7 +250,12 @@ def features(case):
         if has_notnot(e):
             f.add("notnot")
     for ph in case["phases"]:
+        depth = 0
         for c in ph["prog"]:
+            if c[0] in ("if", "else"):
+                depth += 1
+            if c[0] in ("endif", "endelse"):
+                depth -= 1
             if c[0] == "if":
                 f.add("if")
             if c[0] == "else":
@@ -253,6 +265,12 @@ def features(case):
                 f.add(k[0])
                 if k[0] == "assign" and k[4]:
                     f.add("loop%d" % len(k[4]))
+                    lvs = [l[0] for l in k[4]]
+                    if depth > 0:
+                        f.add("guarded_loop")
+                        if any(not persistent(v) and v not in lvs
+                               for _, lo, hi in k[4] for v in lang_vars(lo) | lang_vars(hi)):
+                            f.add("guarded_loop_local_bound")
                 if k[0] == "assign" and k[2] is not None:
                     f.add("subscript_lhs")
                 if k[0] == "assign" and k[1].startswith("<state>") and k[3][0] != "var":
@@ -348,7 +366,7 @@ def run_fortran(case, code):
     if "error" in gen:
         return {"gen_error": gen["error"], "message": gen["message"]}
     drv = rt.make_driver(MODULE, gen, case["init"], case["nsteps"], {"y": NY})
-    res = rt.build_and_run([(MODULE + ".f90", gen["text"]), ("drv.f90", drv)])
+    res = rt.build_and_run([(MODULE + ".f90", gen["text"]), ("drv.f90", drv)], options=FFLAGS, timeout=60)
     ne_in_code = any("!=" in ln for ln in gen["text"].splitlines() if not ln.lstrip().startswith("! "))
     out = {"symbols": [list(s) for s in gen["symbols"]], "phases": gen["phases"], "time_ids": gen["time_ids"],
            "ne_in_code": ne_in_code,
@@ -360,7 +378,8 @@ def run_fortran(case, code):
         for k in list(st):
             if is_ret(k) and isinstance(st[k], str) and st[k].lower().startswith("nan"):
                 st[k] = None            # slot still holds the NaN written by initialize
-    out.update(run_rc=res["run_rc"], stderr=res["stderr"], steps=steps, done=done)
+    out.update(run_rc=res["run_rc"], stderr=res["stderr"], steps=steps, done=done,
+               trapped=bool(res["run_rc"] not in (0, None) and "SIGFPE" in res["stderr"]))
     return out
 
 
@@ -408,7 +427,8 @@ def oracle(case, res):
         return None
     if len(f["steps"]) != len(i["steps"]) or not f["done"] or f["run_rc"] != 0:
         return {"kind": "termination_differs", "interpreter": i["end"], "fortran_calls": len(f["steps"]),
-                "interpreter_steps": len(i["steps"]), "fortran_rc": f["run_rc"], "fortran_stderr": f["stderr"][:300]}
+                "interpreter_steps": len(i["steps"]), "fortran_rc": f["run_rc"], "fortran_stderr": f["stderr"][:300],
+                "fortran_trapped": f.get("trapped", False)}
     if f["stderr"].strip():
         return {"kind": "runtime_stderr", "stderr": f["stderr"][:600]}
     return None
@@ -449,6 +469,8 @@ def classify(case, o):
         return "double_negation_not_fortran"
     if o["kind"] == "compile_error" and "ne" in feats and o.get("ne_in_code"):
         return "ne_not_fortran"
+    if o["kind"] == "termination_differs" and o.get("fortran_trapped") and "guarded_loop_local_bound" in feats:
+        return "guard_inside_loops_unset_bound"
     if o["kind"] == "state_differs" and "cond_expr" in feats:
         return "conditional_expression_else"
     return o["kind"]
@@ -488,6 +510,8 @@ def steps_to_coq(steps, univ):
 def end_to_coq(end):
     if end[0] == "halt":
         return "(XHalt %s)" % lang.coq_str(end[1])
+    if end[0] == "abort":
+        return "XAbort"
     return "XDone"
 
 
@@ -512,6 +536,8 @@ def case_term(case, res):
             return None
     if compiles and i["end"][0] == "halt":
         fend = ["halt", i["end"][1]] if i["end"][1] in f.get("stderr", "") else ["done"]
+    elif compiles and f.get("trapped"):
+        fend = ["abort"]            # died in call len(fsteps)+1: the model must call that call undefined
     else:
         fend = ["done"]
     init = {}
@@ -544,6 +570,7 @@ class PGen:
         self.use_y = rng.random() < 0.7
         self.use_arr = rng.random() < 0.65
         self.use_bool = rng.random() < 0.4
+        self.use_gl = rng.random() < 0.35     # a guarded loop whose bound is assigned under the same guard
         n = rng.choice([1, 1, 2, 2, 3])
         self.names = ["pa", "pb", "pc"][:n]
 
@@ -638,6 +665,8 @@ class PGen:
             else:
                 lo = r.choice([0, 0, 1])
                 hi = r.randint(lo + (0 if "zero_trip" in self.allow and r.random() < 0.2 else 1), lo + 3)
+                if "zero_trip" in self.allow and r.random() < 0.08:
+                    hi = lo - r.randint(1, 2)           # negative range
                 los, his = ["int", lo], ["int", hi]
                 c = r.random()
                 if k == 1 and c < 0.4:
@@ -707,6 +736,19 @@ class PGen:
             return [["stmt", ["assign", "<p>f", None, self.boolean(2, scope), []]]]
         return [["stmt", ["assign", r.choice(PS), None, self.clamp(self.num(2, scope), scope), []]]]
 
+    def guarded_loop(self, scope):
+        """with if_(c): m <- small value in -1..3;  x <- x + ... [i = lo..m]   (m has no value while c is false)"""
+        r = self.r
+        x = r.choice(PS)
+        bound = ["nary", "min", [["nary", "max", [self.num(1, scope), ["int", -1]]], ["int", 3]]]
+        lo = r.choice([0, 0, 1])
+        sc = dict(scope, loops=[("i", lo, 3)])
+        rhs = self.clamp(["nary", "sum", [["var", x], self.num(1, sc)]], sc)
+        return [["if", self.boolean(1, scope)],
+                ["stmt", ["assign", "m", None, bound, []]],
+                ["stmt", ["assign", x, None, rhs, [["i", ["int", lo], ["var", "m"]]]]],
+                ["endif"]]
+
     def control(self):
         r = self.r
         c = r.random()
@@ -738,7 +780,7 @@ class PGen:
                 prog.append(["stmt", ["assign", "<p>a", None, ["var", "a"], []]])
                 scope["arr"], scope["warr"] = ["<p>a"], ["<p>a"]
         n = r.randint(3, 8)
-        depth, can_else, stack = 0, False, []
+        depth, can_else, stack, gl_done = 0, False, [], False
         while n > 0:
             c = r.random()
             if c < 0.16 and depth < 2:
@@ -761,6 +803,10 @@ class PGen:
                 prog.append(self.control())
                 can_else = False
                 n -= 1
+            elif c < 0.53 and depth < 2 and self.use_gl and not gl_done:
+                prog.extend(self.guarded_loop(scope))
+                can_else, gl_done = True, True
+                n -= 2
             else:
                 prog.extend(self.stmts(scope, depth == 0))
                 if depth == 0:
@@ -847,8 +893,10 @@ def well_formed(case):
     written, read = set(), set()
     names = {ph["name"] for ph in case["phases"]}
     for ph in case["phases"]:
-        local_def, depth = set(), 0
+        defs, depth = [set()], 0
+        local_def = set()
         for c in ph["prog"]:
+            local_def = set().union(*defs)
             if c[0] in ("if", "else"):
                 if c[0] == "if":
                     used = lang_vars(c[1])
@@ -856,8 +904,10 @@ def well_formed(case):
                     if any(not persistent(v) and v not in local_def for v in used):
                         return False
                 depth += 1
+                defs.append(set())
             elif c[0] in ("endif", "endelse"):
                 depth -= 1
+                defs.pop()
             else:
                 k = c[1]
                 lvs = set(l[0] for l in k[4]) if k[0] == "assign" else set()
@@ -883,8 +933,7 @@ def well_formed(case):
                     return False
                 ws = [k[1]] if k[0] == "assign" and k[2] is None else (list(k[1]) if k[0] == "call" else [])
                 written |= set(ws)
-                if depth == 0:
-                    local_def |= set(ws)
+                defs[-1] |= set(ws)
     return all(v in written for v in read if persistent(v) and v not in ("<t>", "<dt>")) and \
         case["initial"] in names and all(ph["next"] in names for ph in case["phases"])
 
